@@ -22,9 +22,14 @@ def main():
     path = os.path.join(ROOT, "DESIGN.md")
     s = open(path).read()
     out = []
+    in_table = False
     for line in s.splitlines():
+        if line.startswith("### 9.2"):
+            in_table = True
+        elif line.startswith("### 9.3"):
+            in_table = False
         m = re.match(r"^\| (C\d\d) \| ", line)
-        if m and line.count("|") >= 6:
+        if in_table and m and line.count("|") >= 6:
             pid = m.group(1)
             cells = line.split(" | ")
             cells[-2] = cell(os.path.join(ROOT, "evidence", pid + ".json"))
